@@ -6,13 +6,25 @@ import (
 	"fmt"
 	"go/token"
 	"go/types"
+	"regexp"
+	"strings"
 
 	"golang.org/x/tools/go/ssa"
 )
 
+var aliasRe = regexp.MustCompile(`\b(byte|rune)\b`)
+
 // typeConstant returns the RT constant standing for a Go type (distinct per type).
 func (m *Machine) typeConstant(t types.Type) Term {
-	name := "T." + sanitize(typeString(t))
+	ts := typeString(t)
+	// byte and rune are aliases: one constant per identical type
+	ts = aliasRe.ReplaceAllStringFunc(ts, func(w string) string {
+		if w == "byte" {
+			return "uint8"
+		}
+		return "int32"
+	})
+	name := "T." + sanitize(ts)
 	if tc, ok := m.typeConst[name]; ok {
 		return tc
 	}
@@ -370,10 +382,15 @@ func (m *Machine) mapState(st *State, ref Term, t types.Type) *mapContent {
 	}
 	ks, vs := m.mapSorts(t)
 	mc := &mapContent{
-		has:   m.syms.fresh("map.has", ArraySort(ks, SBool)),
-		get:   m.syms.fresh("map.get", ArraySort(ks, vs)),
+		has:   m.syms.named("map.has0."+sanitize(ref.S), ArraySort(ks, SBool)),
+		get:   m.syms.named("map.get0."+sanitize(ref.S), ArraySort(ks, vs)),
 		size:  app(SBV64, "map.size0", ref),
 		ksort: ks, vsort: vs,
+	}
+	if _, fresh := st.ghost["@mapfresh:"+ref.S]; fresh {
+		mc.has = m.syms.fresh("map.has", ArraySort(ks, SBool))
+		mc.get = m.syms.fresh("map.get", ArraySort(ks, vs))
+		mc.size = m.syms.fresh("map.size", SBV64)
 	}
 	st.assume(BVSge(mc.size, BVLitI(0, 64)))
 	st.ghost[k] = mc
@@ -602,4 +619,50 @@ func (m *Machine) rangeOp(c *Config, x *ssa.Range) Value {
 func (m *Machine) nextOp(c *Config, x *ssa.Next) (Value, []*Config) {
 	m.unsup("next")
 	return nil, nil
+}
+
+// typeByString resolves the type names contracts may mention in istype().
+func (m *Machine) typeByString(name string) types.Type {
+	switch name {
+	case "[]byte":
+		return types.NewSlice(types.Typ[types.Uint8])
+	case "string":
+		return types.Typ[types.String]
+	case "bool":
+		return types.Typ[types.Bool]
+	case "int32":
+		return types.Typ[types.Int32]
+	case "int64":
+		return types.Typ[types.Int64]
+	case "float64":
+		return types.Typ[types.Float64]
+	}
+	lookup := func(pkg *types.Package, n string) types.Type {
+		if pkg == nil {
+			return nil
+		}
+		if o := pkg.Scope().Lookup(n); o != nil {
+			return o.Type()
+		}
+		return nil
+	}
+	ptr := false
+	if strings.HasPrefix(name, "*") {
+		ptr = true
+		name = name[1:]
+	}
+	var t types.Type
+	if i := strings.LastIndex(name, "."); i >= 0 {
+		for _, imp := range m.pkg.Pkg.Imports() {
+			if imp.Name() == name[:i] || imp.Path() == name[:i] {
+				t = lookup(imp, name[i+1:])
+			}
+		}
+	} else {
+		t = lookup(m.pkg.Pkg, name)
+	}
+	if t != nil && ptr {
+		t = types.NewPointer(t)
+	}
+	return t
 }
